@@ -181,7 +181,7 @@ def rand_budget(rng):
     if r < 0.6:
         return {"max_nodes": rng.randint(2, 60), "oracle": []}
     if r < 0.9:
-        k = rng.randint(1, 60)
+        k = rng.randint(1, 12) if rng.random() < 0.6 else rng.randint(1, 80)
         return {"max_nodes": None, "oracle": [True] * (k - 1) + [False]}
     return {"max_nodes": rng.randint(2, 80), "oracle": [rng.random() < 0.97 for _ in range(rng.randint(1, 80))]}
 
@@ -358,10 +358,12 @@ def check_report(ctx, c, im, mo, stream, st):
         ctx.broken("correspondence", stream, "model evaluation failed: %s" % (mo[1],), c)
         st["mis"] += 1
         return
-    msteps, mtabs, mspec, mwmc, mmodels, mgrads = mo
+    msteps, mtabs, mspec, mwmc, mmodels, mgrads, mdecomp = mo
     msteps = [list(x) for x in msteps]
     diff = None
-    if mspec != spec:
+    if mdecomp is not True:
+        diff = "the model's final manager fails decomp_ok (hypothesis of C07_wmc_partial)"
+    elif mspec != spec:
         diff = "Coq Spec truth tables differ from the check's bit-mask Spec"
     elif mtabs != spec:
         diff = "model truth tables differ from the Spec (the model has no exactness theorem for this case?)"
